@@ -38,6 +38,8 @@ def _rename(ev, k):
     """Outgoing ids are unique over the whole history (uuid4 in production)."""
     gen = lambda i: isinstance(i, str) and i.startswith("out-")
     if ev[0] == "send" and gen(ev[1]):
+        if len(ev) > 2:
+            return ["send", "%s#%d" % (ev[1], k), ev[2], dict(ev[3], id="%s#%d" % (ev[3]["id"], k))]
         return ["send", "%s#%d" % (ev[1], k)]
     if ev[0] == "recv" and ev[1]["t"] == "resp" and gen(ev[1]["id"]):
         f = dict(ev[1])
@@ -203,6 +205,9 @@ class C16(c01.C01):
             follow = [["recv", {"t": "resp", "id": oid, "ver": True, "err": kind in ("error", "dup-error"), "ps": "ok"}]]
             if kind.startswith("dup"):
                 follow.append(["recv", {"t": "resp", "id": oid, "ver": True, "err": rng.random() < 0.5, "ps": "ok"}])
+            if cfg["writer"] == "blocking" and rng.random() < 0.3:
+                # reactive transport: the first answer is dispatched while send_request is inside write()
+                msgs[pos] = ["send", oid, "react", follow.pop(0)[1]]
             x = rng.random()
             if x < 0.4:
                 follow.insert(0, ["ocancel", oid])           # the caller gives up, THEN the peer answers
@@ -309,6 +314,36 @@ class C16(c01.C01):
         return out
 
     # ---------------------------------------------------------------- model / reference
+    @staticmethod
+    def _expand(case):
+        """A reactive send is, for the model, the send followed by the arrival of the answer."""
+        evs, pairs = [], []
+        for e in case["evs"]:
+            if e[0] == "send" and len(e) > 2:
+                pairs.append(len(evs))
+                evs.append(["send", e[1]])
+                evs.append(["recv", e[3]])
+            else:
+                evs.append(e)
+        return {"cfg": case["cfg"], "evs": evs}, pairs
+
+    @staticmethod
+    def _merge(obs, pairs):
+        """One observation per case event: the two model observations of a reactive send are merged."""
+        out, k, first = [], 0, set(pairs)
+        while k < len(obs):
+            if k in first:
+                a, b = obs[k], obs[k + 1]
+                m = dict(b)
+                for f in ("out", "hlog", "errs"):
+                    m[f] = a[f] + b[f]
+                out.append(m)
+                k += 2
+            else:
+                out.append(obs[k])
+                k += 1
+        return out
+
     def model_input(self, case):
         if "probe" in case:
             return sched.encode_case({"cfg": {"writer": "blocking", "hook": "quiet", "wfail": None}, "evs": []})
@@ -317,7 +352,9 @@ class C16(c01.C01):
     def model_output(self, case, toks):
         if "probe" in case:
             return {"M": None, "S": {"probe": case["probe"]}, "guard": True, "klass": None}
-        obs, summ = sched.parse_run(toks, len(case["evs"]))
+        mcase, pairs = self._expand(case)
+        obs, summ = sched.parse_run(toks, len(mcase["evs"]))
+        obs = self._merge(obs, pairs)
         for o in obs:
             o.pop("undef")
             o["hlog"] = [h for h in o["hlog"] if h[1] != "builtin"]
